@@ -548,7 +548,10 @@ func (s *Server) readPQClientAuth(b []byte, addr *net.UDPAddr) (int, *HandshakeS
 	logrus.Debugf("buf %v", b)
 
 	encCertsLen := (int(b[2]) << 8) + int(b[3])
-	if len(b) < HeaderLen+SessionIDLen+encCertsLen+MacLen {
+	// The message ends with two MACs (the tag over the certificates and the
+	// final one). Both must lie inside the datagram: b is a slice of the
+	// server's read buffer, and what follows it are bytes of earlier datagrams.
+	if len(b) < HeaderLen+SessionIDLen+encCertsLen+2*MacLen {
 		logrus.Debug("server: client auth too short")
 		return 0, nil, ErrBufUnderflow
 	}
